@@ -103,4 +103,22 @@ def viewHandle (s : State) (h : Nat) : HandleView :=
       | some n => .named n
       | none => .unlinked
 
+/-! ### all-or-nothing -/
+
+/-- an outcome whose exception, if any, leaves the state `s` alone -/
+def ErrKeeps {α} (s : State) (r : Res α) : Prop := ∀ e s', r = .err e s' → s' = s
+
+/-- the field object still wraps a linked field (it is not the left-over of a deleted column) -/
+def Linked (s : State) (h : Nat) : Prop := ∀ hd, ensureValid s h = .ok hd → ∃ k, fieldName s h = .ok k
+
+/-- calls on the columns of a dataframe -/
+def Op.fieldLevel : Op → Bool
+  | .create .. | .setItem .. | .add .. | .delItem .. | .drop .. | .deleteField .. | .rename .. | .copyField .. | .moveField .. => true
+  | _ => false
+
+/-- the field object given to `dataframe.move`, if any, is not the left-over of a deleted column -/
+def Op.srcLinked (s : State) : Op → Prop
+  | .moveField r _ _ _ => ∀ h, getField s r = .ok h → Linked s h
+  | _ => True
+
 end Exetera.Catalogue
